@@ -131,7 +131,7 @@ class Node:
         self.env.setdefault("RUST_BACKTRACE", "0")
         if env:
             self.env.update(env)
-        self.binary = binary or VNODE
+        self.binary = binary or os.environ.get("VERIF_VNODE") or VNODE
         self.stderr_path = os.path.join(root, f"stderr-{lifetime}.log")
         self.op_counter = 0
 
@@ -141,7 +141,7 @@ class Node:
         self.proc = subprocess.Popen(
             [self.binary], stdin=subprocess.PIPE, stdout=subprocess.PIPE, stderr=self.stderr_f,
             env=self.env, cwd=self.root, bufsize=0)
-        kind, body = self._read_frame(timeout=60.0)
+        kind, body = self._read_frame(timeout=float(os.environ.get("VERIF_NODE_START_TIMEOUT", "60")))
         if kind != "meta":
             raise Inconclusive(f"vnode did not become ready: {kind} {body[:200]!r}")
         return self
@@ -149,9 +149,15 @@ class Node:
     def stderr_tail(self, n=2000):
         try:
             with open(self.stderr_path, "rb") as f:
-                return f.read()[-n:].decode("utf-8", "replace")
+                data = f.read().decode("utf-8", "replace")
         except OSError:
             return ""
+        i = data.find("ERROR: AddressSanitizer")
+        if i < 0:
+            i = data.find("ERROR: LeakSanitizer")
+        if i >= 0:
+            return data[max(0, i - 50):i + 4000]          # the sanitizer report starts here; keep its head (error line + stack)
+        return data[-n:]
 
     def panics(self):
         out = []
@@ -228,7 +234,8 @@ class Node:
         return buf
 
     def _read_frame(self, timeout=None):
-        deadline = time.monotonic() + (timeout or self.watchdog)
+        # VERIF_SLOWDOWN: factor for instrumented nodes (valgrind); watchdogs are harness limits, not verdicts
+        deadline = time.monotonic() + (timeout or self.watchdog) * float(os.environ.get("VERIF_SLOWDOWN", "1"))
         hdr = self._read_line(deadline).decode()
         if not hdr.startswith("#"):
             raise Inconclusive(f"bad frame header {hdr!r}")
